@@ -171,6 +171,12 @@ def local_defs(stmts):
     defs, multi = {}, set()
     for s in stmts:
         for a in ast.walk(s):
+            if isinstance(a, ast.AnnAssign) and a.value is not None and isinstance(a.target, ast.Name):
+                # typed declarations with a value (cdef T x = e in the lowered Cython sources)
+                if a.target.id in defs:
+                    multi.add(a.target.id)
+                defs[a.target.id] = a.value
+                continue
             if not isinstance(a, ast.Assign) or len(a.targets) != 1:
                 continue
             t, v = a.targets[0], a.value
